@@ -1,23 +1,48 @@
 #!/bin/sh
-# Must-fail self-test: every patch in mutants/ (still compiling, passing the
-# 119 tests) must make the named obligation fail. Runs on a scratch copy of
-# /repo, never on /repo itself.
+# Must-fail self-test: every patch in mutants/ (pre-fix versions of repaired defects,
+# hand-made mutants) and - with --seeds - every confirmed seeded change under /verif/seeded
+# must make the check of its property report a VIOLATION (the named obligation for mutants).
+# Runs on a scratch copy of /repo, never on /repo itself.
+# usage: run.sh [--prop Cxx] [--seeds] [substring-of-patch-name]
 export GOFLAGS=-mod=mod GOPROXY=off GOSUMDB=off GOTOOLCHAIN=local
 V=$(cd "$(dirname "$0")/.." && pwd)
-ONLY="$1"
+PROP=""; SEEDS=0; ONLY=""
+while [ $# -gt 0 ]; do
+  case "$1" in --prop) PROP="$2"; shift 2;; --seeds) SEEDS=1; shift;; *) ONLY="$1"; shift;; esac
+done
 S=$(mktemp -d /var/tmp/govc-selftest-XXXXXX)
 trap 'rm -rf "$S"' EXIT
-fail=0; n=0
+run_one() { # <patchfile> <prop> <want-or-empty> <label>
+  rm -rf "$S/repo"; cp -r /repo "$S/repo"; rm -rf "$S/repo/.git"
+  if ! (cd "$S/repo" && patch -p1 -s < "$1"); then echo "SELFTEST-ERROR $4 does not apply"; echo x >> "$S/fail"; return; fi
+  mkdir -p "$S/verif"; rm -rf "$S/verif/replays"; cp "$V/known_findings.json" "$S/verif/" 2>/dev/null; rm -rf "$S/verif/contracts"; cp -r "$V/contracts" "$S/verif/contracts"
+  out=$("$V/bin/govc" -repo "$S/repo" -verif "$S/verif" -prop "$2" 2>&1)
+  out="$out
+$(GOVC_REPO="$S/repo" GOVC_VERIF_OUT="$S/verif" "$V/standins/run.sh" "$2" quick "$S/extra.json" 2>&1)"
+  echo run >> "$S/count"
+  if [ -n "$3" ]; then
+    if echo "$out" | grep "VIOLATION" | sed 's/[#$@]/_/g' | grep -q -- "$(echo "$3" | sed 's/[#$@]/_/g')"; then echo "selftest ok   $4 -> $3"; echo ok >> "$S/okcount"; else echo "SELFTEST-MISS $4 expected VIOLATION matching $3"; echo "$out" | grep -E "VIOLATION|UNDECIDED|^govc" | tail -3; echo x >> "$S/fail"; fi
+  else
+    if echo "$out" | grep -q "VIOLATION"; then echo "selftest ok   $4 -> $(echo "$out" | grep -c VIOLATION) violation(s)"; echo ok >> "$S/okcount"; else echo "SELFTEST-MISS $4 no VIOLATION for $2"; echo x >> "$S/fail"; fi
+  fi
+}
 grep -v '^#' "$V/selftest/expect.tsv" | while IFS="$(printf '\t')" read -r patch prop want; do
   [ -z "$patch" ] && continue
   [ -n "$ONLY" ] && ! echo "$patch" | grep -q "$ONLY" && continue
-  rm -rf "$S/repo"; cp -r /repo "$S/repo"; rm -rf "$S/repo/.git"
-  if ! (cd "$S/repo" && patch -p1 -s < "$V/selftest/mutants/$patch"); then echo "SELFTEST-ERROR $patch does not apply"; echo x >> "$S/fail"; continue; fi
-  mkdir -p "$S/verif"; rm -rf "$S/verif/replays"; cp "$V/known_findings.json" "$S/verif/" 2>/dev/null; rm -rf "$S/verif/contracts"; cp -r "$V/contracts" "$S/verif/contracts"
-  out=$("$V/bin/govc" -repo "$S/repo" -verif "$S/verif" -prop "$prop" 2>&1)
-  case "$want" in standin.*) out="$out
-$(GOVC_REPO="$S/repo" GOVC_VERIF_OUT="$S/verif" "$V/standins/run.sh" "$prop" quick "$S/extra.json" 2>&1)";; esac
-  if echo "$out" | grep "VIOLATION" | sed 's/[#$@]/_/g' | grep -q -- "$(echo "$want" | sed 's/[#$@]/_/g')"; then echo "selftest ok   $patch -> $want"; else echo "SELFTEST-MISS $patch expected VIOLATION matching $want"; echo "$out" | tail -3; echo x >> "$S/fail"; fi
+  [ -n "$PROP" ] && [ "$prop" != "$PROP" ] && continue
+  run_one "$V/selftest/mutants/$patch" "$prop" "$want" "$patch"
 done
+if [ $SEEDS -eq 1 ]; then
+  for d in "$V"/seeded/C*[ab]; do
+    [ -f "$d/patch.diff" ] || continue
+    b=$(basename "$d"); prop=${b%?}
+    [ -n "$ONLY" ] && ! echo "$b" | grep -q "$ONLY" && continue
+    [ -n "$PROP" ] && [ "$prop" != "$PROP" ] && continue
+    run_one "$d/patch.diff" "$prop" "" "seeded/$b"
+  done
+fi
+n=$(wc -l < "$S/count" 2>/dev/null || echo 0); k=$(wc -l < "$S/okcount" 2>/dev/null || echo 0)
+echo "selftest: $k of $n must-fail changes reported"
+[ -n "$SELFTEST_JSON" ] && echo "{\"selftest\": {\"must_fail_changes_run\": $n, \"reported_as_violation\": $k}}" > "$SELFTEST_JSON"
 [ -f "$S/fail" ] && exit 1
 exit 0
